@@ -398,6 +398,14 @@ def playback(ws, unit, fq_harness, check_ids, timeout_s, log_dir):
         open(os.path.join(log_dir, "playback-native-%d.log" % i), "w").write(nat)
         panicked = re.search(r"panicked at .*?\n(.*)", nat)
         tagged = re.findall(r"\[(C\d+/[A-Za-z0-9_.-]+)\][^\n]*", nat)
+        # the playback library itself panics when the recorded byte stream does not fit the
+        # harness's any() calls (values sliced away, nondeterministic stubs): such a replay says
+        # nothing about the code
+        unusable = "kani/src/concrete_playback.rs" in nat or "could not compile" in nat
         results.append({"test": tname, "test_src": test_src, "native_tail": nat[-3000:], "tags_hit": tagged,
-                        "failed_natively": "test result: FAILED" in nat or bool(panicked)})
-    return {"reproduced": any(r["failed_natively"] and r["tags_hit"] for r in results), "runs": results}
+                        "failed_natively": "test result: FAILED" in nat or bool(panicked), "replay_unusable": unusable})
+    if any(r["failed_natively"] and r["tags_hit"] for r in results):
+        return {"reproduced": True, "runs": results}
+    if results and all(r["replay_unusable"] for r in results):
+        return {"reproduced": None, "why": "the recorded byte stream does not replay (playback library mismatch)", "runs": results}
+    return {"reproduced": False, "runs": results}
